@@ -332,7 +332,7 @@ func runCfg(c cfg, choose func(step int, en []*sched.Thread, last *sched.Thread)
 	})
 	var last *sched.Thread
 	step := 0
-	s.StuckAfter = 1500 * time.Millisecond
+	s.StuckAfter = 4 * time.Second // generous: a loaded machine must not make a slow step look like a blocked goroutine
 	s.Unfair = c.Starve
 	s.MaxSteps = 20000
 	o.Winner = -2
